@@ -95,10 +95,10 @@ CLAIMS = {
             'seqx: every history (depth 5-6 quick, 7-8 thorough, and depth 4-5 continuations of five non-initial prefixes) over publish/batch/subscribe(recent, at, '
             'copy)/await/next_ready/kick/leave/close for (min,max) in 1..3 (1..5) and unlimited x three modes against the reference of DESIGN 5/C16. vrt: one and '
             'two publisher threads against coroutine, blocking and polling subscribers, bound 2/3.', '5/C16'),
-    'C17': ('vrt', 'stateless model checking of the implementation (bound 2/3, all interleavings for one handle thread)',
-            'Resolver thread (value/exception/drop) against 1-2 threads running scripts over copy/await/wait/poll/drop with the main handle dropped '
+    'C17': ('vrt', 'stateless model checking of the implementation (bound 2 over all scenarios, bound 3 on the core constructors; thorough: all interleavings for one handle thread)',
+            'Resolver thread (value/exception/drop/overwritten promise/destroyed promise) against 1-2 threads running scripts over copy/await/wait/poll/drop with the main handle dropped '
             'early or late, for every constructor (promise function, future function pending/ready, default + get_promise, functions that start the resolver '
-            'themselves): same result for all, each awaiter once, stored value destroyed exactly once after resolution (Counted balance, heap oracle).', '5/C17'),
+            'themselves, init_if_needed + copy + operator<<, a resolved state re-used through operator<<): same result for all, each awaiter once, stored value destroyed exactly once after resolution (Counted balance, heap oracle).', '5/C17'),
     'C18': ('vrt+seqx', 'exhaustive configuration product on the real code + stateless model checking (all interleavings) of concurrent resolution',
             'seqx: adapter (callback_await, callback_await_alloc, with lvalue awaitable and with stateful rvalue factory from normal code / from a coroutine, '
             'make_promise, make_promise+storage, discard, six future_conv shapes, call_fn_future_awaiter, two-step re-arming converter) x outcome (value, '
